@@ -1,87 +1,294 @@
-// BOUNDED contract check of the agent-hosted map downlink state (server/swimos_agent/src/agent_model/downlink/hosted/map/
-// mod.rs: MapDlState::{update, remove, clear, drop, take}) -- property C08: the hosted downlink's state is the same fold of
-// the received notifications as the stand-alone client's (bx `map_task`), with and without lifecycle dispatch.
-// (RefCell + closures + boxed handlers: outside Verus/Kani.) Checked on EVERY operation sequence up to VERIF_BX_DEPTH over keys
-// {1,2,3}, values {10,20}, take/drop counts {0,1,2}; take/drop use the documented key order (keys in their Recon/Value order).
+// BOUNDED contract check of the agent-hosted map downlink (server/swimos_agent/src/agent_model/downlink/hosted/map/mod.rs:
+// HostedMapDownlink::next_event and MapDlState::{update, remove, clear, take, drop}) -- property C08.
+// (Boxed event handlers, RefCell state, atomics: outside Verus/Kani.) Each notification is placed in the downlink's `next`
+// slot (what select_next does after decoding a frame), next_event is called and the returned handler is run to completion.
+// Checked on EVERY well-behaved notification sequence up to VERIF_BX_DEPTH over keys {1,2,3}, values {10,20}, take/drop
+// counts {0,1,2}, for the four settings of (events_when_not_synced, terminate_on_unlinked), including relinks.
+// Contract = the one checked for the stand-alone client map downlink (bx map_task): the map is the fold of the notifications
+// received since it linked, callbacks fire exactly when dispatch is enabled, in order, with the removed/old/new values and the
+// map of that moment; on_synced sees the state of that moment.
+// The ONE place where the hosted downlink deliberately differs from the client (pinned by its own test
+// emit_drop_all_handlers) is Drop(n) with n >= len: it reports on_clear(old map) instead of one on_remove per key. The main
+// obligation accepts that; the second obligation demands strict agreement with the client there (open known finding).
 use super::*;
-use crate::downlink_lifecycle::StatelessMapDownlinkLifecycle;
+use crate::agent_model::downlink::hosted::test_support::run_handler;
+use crate::downlink_lifecycle::{OnDownlinkClear, OnDownlinkRemove, OnDownlinkUpdate, OnFailed, OnLinked, OnSynced, OnUnlinked};
+use crate::event_handler::{HandlerActionExt, LocalBoxEventHandler, SideEffect};
 use std::collections::BTreeMap;
+use std::sync::Mutex;
+use swimos_utilities::{byte_channel, non_zero_usize};
+
+struct FakeAgent;
+type HM = HashMap<i32, i32>;
+type M = BTreeMap<i32, i32>;
+type Log = Arc<Mutex<Vec<String>>>;
+fn sorted(m: &HM) -> M {
+    m.iter().map(|(k, v)| (*k, *v)).collect()
+}
+struct Rec {
+    log: Log,
+}
+impl Rec {
+    fn effect<'a>(&'a self, s: String) -> LocalBoxEventHandler<'a, FakeAgent> {
+        let log = self.log.clone();
+        SideEffect::from(move || {
+            log.lock().unwrap().push(s);
+        })
+        .boxed_local()
+    }
+}
+impl OnLinked<FakeAgent> for Rec {
+    type OnLinkedHandler<'a> = LocalBoxEventHandler<'a, FakeAgent> where Self: 'a;
+    fn on_linked(&self) -> Self::OnLinkedHandler<'_> {
+        self.effect("linked".into())
+    }
+}
+impl OnUnlinked<FakeAgent> for Rec {
+    type OnUnlinkedHandler<'a> = LocalBoxEventHandler<'a, FakeAgent> where Self: 'a;
+    fn on_unlinked(&self) -> Self::OnUnlinkedHandler<'_> {
+        self.effect("unlinked".into())
+    }
+}
+impl OnFailed<FakeAgent> for Rec {
+    type OnFailedHandler<'a> = LocalBoxEventHandler<'a, FakeAgent> where Self: 'a;
+    fn on_failed(&self) -> Self::OnFailedHandler<'_> {
+        self.effect("failed".into())
+    }
+}
+impl OnSynced<HM, FakeAgent> for Rec {
+    type OnSyncedHandler<'a> = LocalBoxEventHandler<'a, FakeAgent> where Self: 'a;
+    fn on_synced<'a>(&'a self, value: &HM) -> Self::OnSyncedHandler<'a> {
+        self.effect(format!("synced{:?}", sorted(value)))
+    }
+}
+impl OnDownlinkUpdate<i32, i32, HM, FakeAgent> for Rec {
+    type OnUpdateHandler<'a> = LocalBoxEventHandler<'a, FakeAgent> where Self: 'a;
+    fn on_update<'a>(&'a self, key: i32, map: &HM, previous: Option<i32>, new_value: &i32) -> Self::OnUpdateHandler<'a> {
+        self.effect(format!("update({key},{:?},{new_value},{:?})", previous, sorted(map)))
+    }
+}
+impl OnDownlinkRemove<i32, i32, HM, FakeAgent> for Rec {
+    type OnRemoveHandler<'a> = LocalBoxEventHandler<'a, FakeAgent> where Self: 'a;
+    fn on_remove<'a>(&'a self, key: i32, map: &HM, removed: i32) -> Self::OnRemoveHandler<'a> {
+        self.effect(format!("remove({key},{removed},{:?})", sorted(map)))
+    }
+}
+impl OnDownlinkClear<HM, FakeAgent> for Rec {
+    type OnClearHandler<'a> = LocalBoxEventHandler<'a, FakeAgent> where Self: 'a;
+    fn on_clear(&self, map: HM) -> Self::OnClearHandler<'_> {
+        self.effect(format!("clear{:?}", sorted(&map)))
+    }
+}
 
 #[derive(Clone, Copy, Debug)]
-enum Op {
+enum N {
+    Linked,
+    Synced,
+    Unlinked,
     Update(i32, i32),
     Remove(i32),
     Clear,
-    Take(usize),
-    Drop(usize),
+    Take(u64),
+    Drop(u64),
 }
-fn ops() -> Vec<Op> {
-    let mut v = vec![Op::Clear, Op::Take(0), Op::Take(1), Op::Take(2), Op::Drop(0), Op::Drop(1), Op::Drop(2)];
+fn universe() -> Vec<N> {
+    let mut v = vec![N::Linked, N::Synced, N::Unlinked, N::Clear, N::Take(0), N::Take(1), N::Take(2), N::Drop(0), N::Drop(1), N::Drop(2)];
     for k in [1, 2, 3] {
-        v.push(Op::Remove(k));
+        v.push(N::Remove(k));
         for x in [10, 20] {
-            v.push(Op::Update(k, x));
+            v.push(N::Update(k, x));
         }
     }
     v
 }
-struct Ctx;
-type LC = StatelessMapDownlinkLifecycle<Ctx, i32, i32, HashMap<i32, i32>>;
+#[derive(Clone, Debug, PartialEq)]
+enum MState {
+    Unlinked,
+    Linked(M),
+    Synced(M),
+    Stopped,
+}
 
-fn run_sequence(seq: &[Op], dispatch: bool) -> Result<(), String> {
-    let state: MapDlState<i32, i32> = MapDlState::default();
-    let lc = LC::default();
-    let lifecycle: Option<&LC> = if dispatch { Some(&lc) } else { None };
-    let mut model: BTreeMap<i32, i32> = BTreeMap::new();
-    for (step, op) in seq.iter().enumerate() {
-        match *op {
-            Op::Update(k, v) => {
-                let _ = state.update::<LC, Ctx>(k, v, lifecycle);
-                model.insert(k, v);
+// Ok(None): not a well-behaved sequence; Ok(Some(used_drop_all)): passed
+fn run_sequence(seq: &[N], ews: bool, tou: bool, strict: bool) -> Result<Option<bool>, String> {
+    let log: Log = Default::default();
+    let (_in_tx, in_rx) = byte_channel::byte_channel(non_zero_usize!(64));
+    let (out_tx, _out_rx) = byte_channel::byte_channel(non_zero_usize!(64));
+    let (_stop_tx, stop_rx) = trigger::trigger();
+    let (_op_tx, op_rx) = mpsc::unbounded_channel::<MapOperation<i32, i32>>();
+    let agent = FakeAgent;
+    let mut dl: HostedMapDownlink<i32, i32, HM, Rec> = HostedMapDownlink {
+        address: Address::new(None, Text::new("/node"), Text::new("lane")),
+        receiver: None,
+        write_stream: Writes::Inactive(op_rx),
+        state: Default::default(),
+        next: None,
+        lifecycle: Rec { log: log.clone() },
+        config: MapDownlinkConfig { events_when_not_synced: ews, terminate_on_unlinked: tou },
+        dl_state: DlStateTracker::new(Default::default()),
+        stop_rx: Some(stop_rx),
+    };
+    DownlinkChannel::<FakeAgent>::connect(&mut dl, &agent, out_tx, in_rx);
+    let mut m = MState::Unlinked;
+    let mut expected: Vec<String> = vec![];
+    let mut used_drop_all = false;
+    for (step, n) in seq.iter().enumerate() {
+        let legal = match (n, &m) {
+            (N::Linked, MState::Unlinked) => true,
+            (N::Linked, _) => false,
+            (_, MState::Linked(_)) => true,
+            (N::Synced, MState::Synced(_)) => false,
+            (_, MState::Synced(_)) => true,
+            _ => false,
+        };
+        if !legal {
+            return Ok(None);
+        }
+        dl.next = Some(Ok(match *n {
+            N::Linked => DownlinkNotification::Linked,
+            N::Synced => DownlinkNotification::Synced,
+            N::Unlinked => DownlinkNotification::Unlinked,
+            N::Update(key, value) => DownlinkNotification::Event { body: MapMessage::Update { key, value } },
+            N::Remove(key) => DownlinkNotification::Event { body: MapMessage::Remove { key } },
+            N::Clear => DownlinkNotification::Event { body: MapMessage::Clear },
+            N::Take(n) => DownlinkNotification::Event { body: MapMessage::Take(n) },
+            N::Drop(n) => DownlinkNotification::Event { body: MapMessage::Drop(n) },
+        }));
+        if let Some(handler) = DownlinkChannel::<FakeAgent>::next_event(&mut dl, &agent) {
+            run_handler(handler, &agent);
+        }
+        // reference: the fold + the callback trace of the client downlink
+        match *n {
+            N::Linked => {
+                expected.push("linked".into());
+                m = MState::Linked(M::new());
             }
-            Op::Remove(k) => {
-                let _ = state.remove::<LC, Ctx>(k, lifecycle);
-                model.remove(&k);
+            N::Synced => {
+                if let MState::Linked(map) = m.clone() {
+                    expected.push(format!("synced{:?}", map));
+                    m = MState::Synced(map);
+                }
             }
-            Op::Clear => {
-                let _ = state.clear();
-                model.clear();
+            N::Unlinked => {
+                expected.push("unlinked".into());
+                m = if tou { MState::Stopped } else { MState::Unlinked };
             }
-            Op::Take(n) => {
-                let _ = state.take::<LC, Ctx>(n, lifecycle);
-                let keep: Vec<i32> = model.keys().copied().take(n).collect();
-                model.retain(|k, _| keep.contains(k));
-            }
-            Op::Drop(n) => {
-                let _ = state.drop::<LC, Ctx>(n, lifecycle);
-                let gone: Vec<i32> = model.keys().copied().take(n).collect();
-                model.retain(|k, _| !gone.contains(k));
+            ev => {
+                let (map, dispatch) = match &mut m {
+                    MState::Linked(map) => (map, ews),
+                    MState::Synced(map) => (map, true),
+                    _ => unreachable!(),
+                };
+                match ev {
+                    N::Update(k, v) => {
+                        let old = map.insert(k, v);
+                        if dispatch {
+                            expected.push(format!("update({k},{:?},{v},{:?})", old, map));
+                        }
+                    }
+                    N::Remove(k) => {
+                        if let Some(old) = map.remove(&k) {
+                            if dispatch {
+                                expected.push(format!("remove({k},{old},{:?})", map));
+                            }
+                        }
+                    }
+                    N::Clear => {
+                        let old = std::mem::take(map);
+                        if dispatch {
+                            expected.push(format!("clear{:?}", old));
+                        }
+                    }
+                    N::Take(cnt) => {
+                        let removed: Vec<(i32, i32)> = map.iter().skip(cnt as usize).map(|(k, v)| (*k, *v)).collect();
+                        for (k, v) in removed {
+                            map.remove(&k);
+                            if dispatch {
+                                expected.push(format!("remove({k},{v},{:?})", map));
+                            }
+                        }
+                    }
+                    N::Drop(cnt) => {
+                        if cnt as usize >= map.len() && dispatch && !strict {
+                            // the documented deviation of the hosted downlink
+                            used_drop_all = true;
+                            let old = std::mem::take(map);
+                            expected.push(format!("clear{:?}", old));
+                        } else {
+                            if cnt as usize >= map.len() && dispatch {
+                                used_drop_all = true;
+                            }
+                            let removed: Vec<(i32, i32)> = map.iter().take(cnt as usize).map(|(k, v)| (*k, *v)).collect();
+                            for (k, v) in removed {
+                                map.remove(&k);
+                                if dispatch {
+                                    expected.push(format!("remove({k},{v},{:?})", map));
+                                }
+                            }
+                        }
+                    }
+                    _ => unreachable!(),
+                }
             }
         }
-        let got: BTreeMap<i32, i32> = state.with(|inner| inner.map.iter().map(|(k, v)| (*k, *v)).collect());
-        if got != model {
-            return Err(format!("step {step}: the hosted downlink holds {:?}, the notifications received imply {:?}", got, model));
+        let held: M = dl.state.with(|inner| sorted(&inner.map));
+        let got = match dl.dl_state.get() {
+            DlState::Unlinked => MState::Unlinked,
+            DlState::Linked => MState::Linked(held.clone()),
+            DlState::Synced => MState::Synced(held.clone()),
+            DlState::Stopped => MState::Stopped,
+        };
+        if matches!(got, MState::Unlinked | MState::Stopped) && !held.is_empty() {
+            return Err(format!("step {step}: the downlink is {:?} but still holds {:?}", got, held));
+        }
+        if got != m {
+            return Err(format!("step {step}: downlink state is {:?}, the notifications received imply {:?}", got, m));
+        }
+        let got_log = log.lock().unwrap().clone();
+        if got_log != expected {
+            return Err(format!("step {step}: lifecycle callbacks were {:?}, expected {:?}", got_log, expected));
+        }
+        if m == MState::Stopped {
+            break;
         }
     }
-    Ok(())
+    Ok(Some(used_drop_all))
 }
 
 #[test]
 fn hosted_map_downlink_contract() {
     let depth: usize = std::env::var("VERIF_BX_DEPTH").ok().and_then(|s| s.parse().ok()).unwrap_or(4);
-    let ops = ops();
+    let ops = universe();
     let mut evaluations = 0usize;
+    let mut nontrivial = 0usize;
+    let mut strict_evals = 0usize;
     let mut failure: Option<String> = None;
-    'outer: for dispatch in [false, true] {
+    let mut strict_failure: Option<String> = None;
+    'outer: for (ews, tou) in [(false, false), (false, true), (true, false), (true, true)] {
         let mut idx = vec![0usize; depth];
         for len in 1..=depth {
             idx.iter_mut().for_each(|i| *i = 0);
             loop {
-                let seq: Vec<Op> = idx[..len].iter().map(|i| ops[*i]).collect();
-                evaluations += 1;
-                if let Err(e) = run_sequence(&seq, dispatch) {
-                    failure = Some(format!("dispatch={dispatch} {:?} => {}", seq, e));
-                    break 'outer;
+                // (sequences that do not start with Linked are never well-behaved)
+                if matches!(ops[idx[0]], N::Linked) {
+                    let seq: Vec<N> = idx[..len].iter().map(|i| ops[*i]).collect();
+                    evaluations += 1;
+                    match run_sequence(&seq, ews, tou, false) {
+                        Ok(Some(drop_all)) => {
+                            nontrivial += 1;
+                            if drop_all && strict_failure.is_none() {
+                                strict_evals += 1;
+                                if let Err(e) = run_sequence(&seq, ews, tou, true) {
+                                    strict_failure = Some(format!("events_when_not_synced={ews} terminate_on_unlinked={tou} {:?} => {}", seq, e));
+                                }
+                            }
+                        }
+                        Ok(None) => {}
+                        Err(e) => {
+                            failure = Some(format!("events_when_not_synced={ews} terminate_on_unlinked={tou} {:?} => {}", seq, e));
+                            break 'outer;
+                        }
+                    }
                 }
                 let mut k = 0;
                 loop {
@@ -101,12 +308,23 @@ fn hosted_map_downlink_contract() {
             }
         }
     }
-    println!("BX-SAMPLE depth={depth} universe={} operations over keys {{1,2,3}}; e.g. [Update(2,10), Update(1,20), Take(1)]", ops.len());
+    println!("BX-SAMPLE depth={depth} universe={} notifications over keys {{1,2,3}}; e.g. [Linked, Update(2,10), Update(1,20), Synced, Take(1)]", ops.len());
+    let mut failed = false;
     match failure {
-        None => println!("BX-OBL hosted_map_downlink::state_is_fold_of_notifications ok evaluations={evaluations} distinct={evaluations}"),
+        None => println!("BX-OBL hosted_map_downlink::state_is_fold_of_notifications_and_callbacks_match ok evaluations={evaluations} distinct={nontrivial}"),
         Some(w) => {
-            println!("BX-FAIL hosted_map_downlink::state_is_fold_of_notifications witness={w}");
-            panic!("contract violated");
+            println!("BX-FAIL hosted_map_downlink::state_is_fold_of_notifications_and_callbacks_match witness={w}");
+            failed = true;
         }
+    }
+    match strict_failure {
+        None => println!("BX-OBL hosted_map_downlink::drop_of_everything_reports_like_the_client ok evaluations={strict_evals} distinct={strict_evals}"),
+        Some(w) => {
+            println!("BX-FAIL hosted_map_downlink::drop_of_everything_reports_like_the_client witness={w}");
+            failed = true;
+        }
+    }
+    if failed {
+        panic!("contract violated");
     }
 }
